@@ -72,8 +72,8 @@ Proof.
   rewrite !Dn_irrefl, !Rt_irrefl in Hb, Hc.
   lits_pair p1 p2 L12 Hb Hc; lits_pair p1 p3 L13 Hb Hc; lits_pair p1 p4 L14 Hb Hc;
   lits_pair p2 p3 L23 Hb Hc; lits_pair p2 p4 L24 Hb Hc; lits_pair p3 p4 L34 Hb Hc;
-  cbn in Hc; try discriminate Hc; cbn in Hb; try discriminate Hb;
+  cbn in Hc; try discriminate Hc; cbn in Hb; try discriminate Hb; clear Hb Hc;
   destruct p1 as [y1 x1], p2 as [y2 x2], p3 as [y3 x3], p4 as [y4 x4]; unfold lt_rm in *; cbn [fst snd] in *;
-  try (exfalso; lia); clear Hb Hc; subst; lits_search.
+  subst; try (exfalso; lia); lits_search.
 Qed.
 
